@@ -158,9 +158,11 @@ func (p Params[T]) Config(ctx context.Context, t *T, sources ...Source) (*Dials[
 		// the time.
 		cbch := make(chan userCallbackEvent, 64)
 		d.cbch = cbch
+		d.monDone = make(chan struct{})
 		cbmgr := callbackMgr[T]{
-			p:  &p,
-			ch: cbch,
+			p:    &p,
+			ch:   cbch,
+			done: d.monDone,
 		}
 		go cbmgr.runCBs(ctx)
 
@@ -387,6 +389,9 @@ func (u *userCallbackUnregisterToken[T]) unregister(ctx context.Context) bool {
 		return false
 	case <-doneCh:
 		return true
+	case <-u.d.monDone:
+		// the monitor exited; the callback goroutine may never get to this event.
+		return false
 	}
 }
 
@@ -521,7 +526,15 @@ func (d *Dials[T]) submitEventBlocking(ctx context.Context, ev userCallbackEvent
 		return false
 	}
 	select {
+	case <-d.monDone:
+		// the monitor has exited, so the callback goroutine is shutting down
+		return false
+	default:
+	}
+	select {
 	case <-ctx.Done():
+		return false
+	case <-d.monDone:
 		return false
 	case d.cbch <- ev:
 		return true
@@ -630,7 +643,9 @@ func (d *Dials[T]) monitor(
 	watcherChan chan watchStatusUpdate,
 	monCtl <-chan verifyEnable[T],
 ) {
-	defer close(d.cbch)
+	// cbch has several senders (callback registration and unregistration), so
+	// signal shutdown with monDone rather than closing cbch.
+	defer close(d.monDone)
 	skipVerify := d.params.DelayInitialVerification
 	for {
 		select {
